@@ -50,6 +50,19 @@ var defaultStubs = []struct {
 	{"strconv.FormatUint", StubSpec{"intrinsic", "opaque.string"}},
 	{"strconv.FormatInt", StubSpec{"intrinsic", "opaque.string"}},
 	{"strconv.Quote", StubSpec{"intrinsic", "opaque.string"}},
+	// canopy environment model (DESIGN §3); a harness can switch any of these back with "real"
+	{"github.com/canopy-network/canopy/lib.Marshal", StubSpec{"intrinsic", "box.Marshal"}},
+	{"github.com/canopy-network/canopy/lib.Unmarshal", StubSpec{"intrinsic", "box.Unmarshal"}},
+	{"github.com/canopy-network/canopy/lib/crypto.Hash", StubSpec{"intrinsic", "hash32"}},
+	{"github.com/canopy-network/canopy/lib/crypto.ShortHash", StubSpec{"intrinsic", "hash20"}},
+	{"github.com/canopy-network/canopy/lib/crypto.HashString", StubSpec{"intrinsic", "opaque.string"}},
+	{"github.com/canopy-network/canopy/lib/crypto.ShortHashString", StubSpec{"intrinsic", "opaque.string"}},
+	{"github.com/canopy-network/canopy/lib.BytesToTruncatedString", StubSpec{"intrinsic", "opaque.string"}},
+	{"github.com/canopy-network/canopy/lib.BytesToString", StubSpec{"intrinsic", "opaque.string"}},
+	{"(*github.com/canopy-network/canopy/lib.Block).BytesToBlockHash", StubSpec{"intrinsic", "hash32.err"}},
+	{"(*github.com/canopy-network/canopy/lib.CertificateResult).Hash", StubSpec{"intrinsic", "hashdeep32"}},
+	{"github.com/canopy-network/canopy/lib.TimeTrack", StubSpec{"noop", ""}},
+	{"(*github.com/canopy-network/canopy/lib.Metrics).", StubSpec{"noop", ""}},
 }
 
 func (in *Interp) stubFor(name string) (StubSpec, bool) {
